@@ -106,6 +106,28 @@ func NormItem(it ap.Item) ap.Item {
 	return it
 }
 
+// normKeepSingle is NormItem without "one-element list == element".
+func normKeepSingle(it ap.Item) ap.Item {
+	if IsEmptyItem(it) {
+		return nil
+	}
+	switch x := it.(type) {
+	case ap.ItemCollection:
+		return x
+	case *ap.ItemCollection:
+		return *x
+	case ap.IRIs:
+		c := make(ap.ItemCollection, len(x))
+		for i := range x {
+			c[i] = x[i]
+		}
+		return c
+	case *ap.IRIs:
+		return normKeepSingle(*x)
+	}
+	return NormItem(it)
+}
+
 // ShapeOfItem is the shape class used in finding keys.
 func ShapeOfItem(it ap.Item) string {
 	it = NormItem(it)
@@ -170,6 +192,10 @@ func Render(x interface{}) string {
 // DiffItems compares two items under a normal form.
 func DiffItems(path, cell string, want, got ap.Item, f Form, out *[]Diff) {
 	w, g := NormItem(want), NormItem(got)
+	if f.Gob {
+		// the binary form has no reason to unwrap a list of one: stored as a list, read back as a list
+		w, g = normKeepSingle(want), normKeepSingle(got)
+	}
 	if w == nil && g == nil {
 		return
 	}
